@@ -282,7 +282,7 @@ type knownSet map[string]bool
 
 var allFindingIDs = []string{
 	fNegID, fAtoi, fQuoteEOF, fInt32, fBadQuote, fGetPathStar, fForEachNil, fForEachEmpty,
-	fTypedefPath, fLenientRoot, fLenientList, fEmptyRoundTrip, fStrKeyJSON, fStringTypedef,
+	fTypedefPath, fLenientRoot, fLenientList, fEmptyRoundTrip, fStrKeyJSON, fStringTypedef, fFieldNonStruct, fStringNested,
 }
 
 func known() knownSet {
